@@ -231,6 +231,11 @@ def run_check(check, tier, seed):
         else:
             violations.append(r)
 
+    if os.environ.get('VERIF_DUMP'):
+        with open(os.path.join(OUT, prop + '_dump.jsonl'), 'w') as df:
+            for r in results:
+                if r.get('verdict') not in ('unsat', 'held-concrete'):
+                    df.write(json.dumps({k: v for k, v in r.items() if k != 'replay'}, default=str) + '\n')
     counts = {}
     for r in results:
         counts[r.get('verdict')] = counts.get(r.get('verdict'), 0) + 1
